@@ -41,6 +41,13 @@ class LSub:
         self.base, self.field = base, field
 
 
+class LField:
+    """pointer-valued member (this->p): readable and assignable"""
+
+    def __init__(self, path, ct):
+        self.path, self.ct = path, ct
+
+
 class LObj:
     def __init__(self, ref):
         self.ref = ref
@@ -60,6 +67,7 @@ class LoopSpec:
         self.inv, self.unroll, self.variant, self.tags, self.extra_havoc = inv, unroll, variant, tags, extra_havoc
         self.hints = hints      # proof hints: each is proved (given the earlier ones), then assumed
         self.split = None       # optional case split of the step obligations: fn(cx_end, cx_begin) -> [(label, cond)]
+        self.defs = None        # unfolding instances of spec-function definitions: fn(cx_end, cx_begin) -> [formula] (assumed)
 
 
 class Ctx:
@@ -107,7 +115,9 @@ class Ctx:
 
     def R(self, path):
         """resolve 'this' and object aliases (shared_ptr members bound to other objects) in a path"""
-        if self.this and path.startswith('this.'):
+        if path.startswith('='):
+            path = path[1:]          # literal path of a caller object (no 'this' substitution)
+        elif self.this and path.startswith('this.'):
             path = self.this + path[4:]
         for _ in range(6):
             changed = False
@@ -183,6 +193,7 @@ class Exec:
         self.curline = None
         self.scope_stack = []
         self.randoms = []
+        self.def_unfoldings = 0
 
     # -------------------------------------------------------------- obligations
     def oblig(self, st, name, goal, kind, tags=None, note=''):
@@ -195,6 +206,40 @@ class Exec:
             self.obls.append(o)
             return
         o = Obligation(f'{self.unit}#{name}', tags if tags is not None else self.default_tags, st.pc, goal, kind, self.curline, note)
+        self.obls.append(o)
+
+    _arith_cache = {}
+
+    def arith_only(self, e):
+        """no arrays, recursive or uninterpreted functions, quantifiers: pure integer/real arithmetic"""
+        key = e.get_id()
+        c = Exec._arith_cache.get(key)
+        if c is not None and c[1].eq(e):
+            return c[0]
+        ok = True
+        if z3.is_quantifier(e) or z3.is_var(e):
+            ok = False
+        elif z3.is_app(e):
+            k = e.decl().kind()
+            if k in (z3.Z3_OP_SELECT, z3.Z3_OP_STORE, z3.Z3_OP_CONST_ARRAY, z3.Z3_OP_RECURSIVE) or (k == z3.Z3_OP_UNINTERPRETED and e.num_args() > 0) \
+                    or e.decl().name() in ('SUMPROD', 'SUMARR', 'SUMSTRIDE', 'SUMVAR'):
+                ok = False
+            elif z3.is_array(e):
+                ok = False
+            else:
+                for ch in e.children():
+                    if not self.arith_only(ch):
+                        ok = False
+                        break
+        Exec._arith_cache[key] = (ok, e)      # keeps e alive so that its id is not reused
+        return ok
+
+    def oblig_arith(self, st, name, goal, kind, tags=None):
+        """obligation proved from the purely arithmetic part of the path condition only (sound: fewer assumptions)"""
+        if self.quiet:
+            return
+        pc = [a for a in st.pc if self.arith_only(a)]
+        o = Obligation(f'{self.unit}#{name}', tags if tags is not None else self.default_tags, pc, goal, kind, self.curline, 'arithmetic context only')
         self.obls.append(o)
 
     def safe(self, st, what, goal, note=''):
@@ -311,6 +356,9 @@ class Exec:
             return v
         if isinstance(l, LScal):
             return st.scal[l.path]
+        if isinstance(l, LField):
+            v = st.scal.get(l.path)
+            return v if v is not None else PtrV(l.path, I(0), l.ct)
         if isinstance(l, LElem):
             self.check_index(st, l)
             pod = l.ct.kind == 'class' and pod_of(l.ct.name)
@@ -381,6 +429,16 @@ class Exec:
             return
         if isinstance(l, LScal):
             st.scal[l.path] = self.coerce(v, l.ct)
+            self.logw(('s', l.path))
+            self.frame_scalar(st, l.path)
+            return
+        if isinstance(l, LField):
+            if isinstance(v, PtrV) and v.region and v.region.startswith('new:'):
+                from .unit import adopt_region
+                adopt_region(st, v.region, l.path)
+                v = PtrV(l.path, v.off, l.ct)
+                self.logw(('r', l.path)); self.logw(('len', l.path))
+            st.scal[l.path] = v
             self.logw(('s', l.path))
             self.frame_scalar(st, l.path)
             return
@@ -532,7 +590,7 @@ class Exec:
             vid = rd['id']
             if vid in st.env:
                 v = st.env[vid]
-                if isinstance(v, (LScal, LElem, LObj, LSub, LVar)):   # reference variable bound to an lvalue
+                if isinstance(v, (LScal, LElem, LObj, LSub, LVar, LField)):   # reference variable bound to an lvalue
                     return v
                 return LVar(vid)
             # global / static member
@@ -586,7 +644,7 @@ class Exec:
         l = self.lv(b, st) if b.get('valueCategory') == 'lvalue' or k in ('MemberExpr', 'DeclRefExpr') else self.ev(b, st)
         if isinstance(l, LObj):
             return l.ref
-        if isinstance(l, (LVar, LScal, LElem, LSub)):
+        if isinstance(l, (LVar, LScal, LElem, LSub, LField)):
             v = self.load(l, st)
             if isinstance(v, (ObjRef, StructV, PtrV, SubArr)):
                 v._lv = l
@@ -615,6 +673,9 @@ class Exec:
                 if p not in st.scal:
                     self.new_scalar(st, p, lct)
                 return LScal(p, lct)
+            fct = parse_type(n['type'])
+            if fct.kind == 'ptr' and fct.name not in ('std::nullptr_t', 'nullptr_t') and not (fct.pointee.kind == 'class' and not pod_of(fct.pointee.name)):
+                return LField(f'{base.name}.{name}', fct)
             r = self.field(st, base.name, name, n['type'])
             return r
         raise ExtractionError(f'{self.unit}: member {name} of {base} (line {self.curline})')
@@ -1166,7 +1227,7 @@ class Exec:
         return r
 
     def as_rv(self, r, st):
-        if isinstance(r, (LVar, LScal, LElem, LSub)):
+        if isinstance(r, (LVar, LScal, LElem, LSub, LField)):
             return self.load(r, st)
         if isinstance(r, LObj):
             return self.load(r, st)
@@ -1247,6 +1308,8 @@ class Exec:
         ln = line_of(n)
         if ln:
             self.curline = ln
+        if k == 'ExprWithCleanups' and n['inner'][0].get('kind') == 'CXXThrowExpr':
+            return [(st, ('throw',))]
         m = getattr(self, 'st_' + k, None)
         if m is None:
             if 'Expr' in k or 'Operator' in k or 'Literal' in k:
@@ -1340,6 +1403,11 @@ class Exec:
         return [(st, ('ret', v))]
 
     fn_returns_ref = False
+
+    def st_CXXThrowExpr(self, n, st):
+        return [(st, ('throw',))]
+
+    ev_CXXThrowExpr = lambda self, n, st: (_ for _ in ()).throw(ExtractionError('throw inside an expression'))
 
     def st_BreakStmt(self, n, st):
         return [(st, ('brk',))]
@@ -1540,6 +1608,10 @@ class Exec:
             return outs + rets
         # ---- invariant-based
         cx = Ctx(self, st, self.entry, self.args0, None)
+        if spec.defs:
+            for f in spec.defs(cx, cx):
+                st.assume(f)
+                self.def_unfoldings += 1
         invs = spec.inv(cx)
         for (lab, f) in invs:
             self.oblig(st, f'inv.{key}.init.{lab}', f, 'invariant-init', tags)
@@ -1588,10 +1660,17 @@ class Exec:
         for s2 in cont:
             cx2 = Ctx(self, s2, self.entry, self.args0, None)
             cx2.pre = st
+            if spec.defs:
+                for f in spec.defs(cx2, Ctx(self, b0, self.entry, self.args0, None)):
+                    s2.assume(f)
+                    self.def_unfoldings += 1
             if spec.hints:
                 cxb = Ctx(self, b0, self.entry, self.args0, None)
                 for (lab, f) in spec.hints(cx2, cxb):
-                    self.oblig(s2, f'hint.{key}.{lab}', f, 'hint', tags)
+                    if self.arith_only(f):
+                        self.oblig_arith(s2, f'hint.{key}.{lab}', f, 'hint', tags)
+                    else:
+                        self.oblig(s2, f'hint.{key}.{lab}', f, 'hint', tags)
                     s2.assume(f)
             cases = [('', None)]
             if spec.split:
